@@ -19,7 +19,7 @@ TRUSTED_BASE = [
 
 SML_PROOFS = ["SmlNumbers.v", "SmlProofs.v"]
 SML_DEEP = SML_PROOFS + ["LexProofs.v", "ParseProofs.v"]
-SML_LAYOUT = SML_DEEP + ["LayoutProofs.v", "FrameProofs.v"]
+SML_LAYOUT = SML_DEEP + ["LayoutProofs.v", "FrameProofs.v", "OffsetProofs.v"]
 AST_PROOFS = ["FloatProofs.v", "AstProofs.v", "FillProofs.v"]
 FILL_DEEP = ["FillCompose.v", "EllipsisProofs.v", "PrintProofs.v"]
 WIRE_PROOFS = ["HeaderProofs.v", "WireSpec.v", "WireLemmas.v", "WireValues.v", "WireEnc.v", "WireDec.v", "MsgProofs.v"]
@@ -56,7 +56,7 @@ PROPS = {
         rule="all 65,536 session ids through the constructors, all 256 status and reason codes, all 65,536 (PType, SType) pairs through Type() (and a ninth of them, plus PType 0..2 completely, through the decoder); distinct = distinct case texts",
     ),
     "C04": dict(
-        prop_file="props/C04.v", proof_files=WIRE_PROOFS + AST_PROOFS + ["FillCompose.v"] + SML_PROOFS + ["TokenProofs.v"], tie_files=["TablesTie.v"],
+        prop_file="props/C04.v", proof_files=WIRE_PROOFS + AST_PROOFS + ["FillCompose.v"] + SML_DEEP + ["PrintProofs.v", "LayoutProofs.v", "OffsetProofs.v", "TokenProofs.v", "LexPrinted.v"], tie_files=["TablesTie.v"],
         suites=["C04"],
         decisive=[],
         assumptions=["float text is strconv's (FormatFloat/ParseFloat), an oracle of the model rendered by the harness",
